@@ -111,3 +111,14 @@ Print Assumptions C20_heap_run_is_value_run.
 Print Assumptions C20_heap_decoder_agrees.
 Print Assumptions C20_heap_mutating_a_clone_never_changes_the_original.
 Print Assumptions C20_heap_own_copy_of_the_list.
+
+(* State space: the objects this property's model stands for have exactly the fields the model accounts for (StateSpace.v;
+   gen/StateSpaceGen.v is regenerated from the Go sources on every run). A new field - a cache, a memo, a counter - is state
+   the model does not have, so the theorems above would no longer be about the object. *)
+From Coq Require Import String.
+Require Import StateSpaceGen StateSpace.
+Open Scope string_scope.
+Theorem C20_state_space :
+  fields_of "variants.Variant" = fields ["typ"; "value"].
+Proof. vm_compute. repeat split; reflexivity. Qed.
+Print Assumptions C20_state_space.
